@@ -11,7 +11,7 @@ RULE = ("through the real Calculate: (a) Hill 0..999, Shekel 0..999, Rastrigin(1
         "GKLS 2..5 x 1..100, Shekel4 1..3, Rastrigin / XSquared in dimensions 2..12, StronginC3 over its feasible set: dense grid or low-discrepancy sampling + bounded local "
         "polishing from the best cells, from the declared point and from structure-aware starts (GKLS minimisers and balls, Shekel4 centres). Checked: |f(x_decl)-f_decl| <= 1e-4 (right after construction through the `fv = Calculate(point, fv)` idiom with the holder reused, and again after the instance has been evaluated), "
         "no value below f_decl - 2e-3*max(1,|f_decl|), a point within 0.5% of the side of x_decl whose value is within that tolerance of the best value found. "
-        "Non-trivial: every instance; distinct = family member.")
+        "All instances of a case are constructed before any of them is examined (siblings built later are alive). Non-trivial: every instance; distinct = family member.")
 ASSUMPTIONS = ["Lipschitz bounds: Hill sum 2*pi*i*sqrt(a_i^2+b_i^2); Shekel sum (3*sqrt(3)/8)*sqrt(k_i/c_i^3); Rastrigin(1) 2*2.2+20*pi; XSquared(1) 2",
                "multi-dimensional families are explored, not certified: a narrow basin missed by the grid and all starts would go unnoticed",
                "near-ties between basins within the stated value tolerance are not an alarm"]
@@ -130,8 +130,11 @@ def run_case(c):
     keys = []
     kind = c["kind"]
     if kind == "1d":
-        for key in c["keys"]:
-            p = bench.construct(tuple(key))
+        # every instance of the case is constructed first and stays alive while the others are examined: the declared optimum of
+        # an instance must be its global minimum no matter which siblings were built after it
+        pool = [bench.construct(tuple(key)) for key in c["keys"]]
+        obs["instances_alive_together"] = len(pool)
+        for key, p in zip(c["keys"], pool):
             lo, hi = bench.bounds(p)
             xd, fd = check_declared_value(p, key, viol)
             L = lip_bound(key)
@@ -154,8 +157,12 @@ def run_case(c):
         return {"violations": viol[:8], "obs": obs, "nontrivial": True, "keys": keys,
                 "sample": {"kind": "1-D certified", "first": c["keys"][0], "n": len(c["keys"]), "bb_evaluations": obs.get("bb_evaluations")} if c["keys"][0][1] in (0, 1) else None}
     if kind == "grid2d":
-        for key in c["keys"]:
-            p = bench.construct(tuple(key))
+        pool = [bench.construct(tuple(key)) for key in c["keys"]]
+        if len(pool) > 1:
+            pool = pool[::-1][::-1]
+        other = bench.construct(("grishagin", 1 + (c["keys"][0][1] * 37) % 100))      # a later sibling of another number
+        obs["instances_alive_together"] = len(pool) + 1
+        for key, p in zip(c["keys"], pool):
             lo, hi = bench.bounds(p)
             xd, fd = check_declared_value(p, key, viol)
             g = c["g"]
@@ -183,10 +190,12 @@ def run_case(c):
                 "sample": {"kind": "grid + polish", "keys": c["keys"], "grid": c["g"]} if c["keys"][0][1] < 4 else None}
     if kind == "gkls":
         n = c["n"]
+        gpool = {k: bench.construct(("gkls", n, k)) for k in c["ks"]}
+        obs["instances_alive_together"] = len(gpool)
         for k in c["ks"]:
             key = ["gkls", n, k]
             rng = scenario.rng_for(c["seed"], "C10g", "%d-%d" % (n, k))
-            p = bench.construct(tuple(key))
+            p = gpool[k]
             lo, hi = bench.bounds(p)
             xd, fd = check_declared_value(p, key, viol)
             M = np.array(p.function.GKLS_minima.local_min, dtype=float)
@@ -219,6 +228,9 @@ def run_case(c):
         key = c["key"]
         rng = scenario.rng_for(c["seed"], "C10m", str(key))
         p = bench.construct(tuple(key))
+        # siblings of the same family built after it and alive during the examination
+        sib = [bench.construct((key[0], v)) for v in ((1, 2, 3) if key[0] == "shekel4" else (2, 5, 12, 1)) if v != key[1]]
+        obs["instances_alive_together"] = len(sib) + 1
         lo, hi = bench.bounds(p)
         xd, fd = check_declared_value(p, key, viol)
         n = len(lo)
@@ -299,6 +311,8 @@ def finalize(obs, tier, stats):
     need = 2002 + 400 + 3 + 22 + 1 + 100
     if obs.get("instances", 0) != need:
         return "only %d of %d instances examined" % (obs.get("instances", 0), need), {}
+    if not obs.get("instances_alive_together"):
+        return "instances were never examined while siblings built later were alive", {}
     if obs.get("certified_instances", 0) < 2002:
         return "only %d of 2002 one-dimensional instances certified" % obs.get("certified_instances", 0), {}
     return None, {"certified_one_dimensional_instances": obs.get("certified_instances", 0)}
